@@ -129,6 +129,21 @@ impl Mempool {
             public_key = wallet.public_key;
             transaction.generate(&public_key, 0, 0);
 
+            // the staking transaction of a block is built by its producer from its own wallet
+            // (bundle_block); a block with a second one is invalid, so none is taken from others
+            if transaction.transaction_type == TransactionType::BlockStake
+                && !transaction
+                    .from
+                    .iter()
+                    .all(|input| input.public_key == public_key)
+            {
+                debug!(
+                    "staking transaction of another key not accepted into the mempool : {:?}",
+                    transaction.signature.to_hex()
+                );
+                return;
+            }
+
             tx_valid = transaction.validate(&blockchain.utxoset, blockchain, true);
         }
 
